@@ -5,6 +5,16 @@ sys.path.insert(0, '/verif/lib')
 import props
 
 LEVEL = {
+ "C01": ("BP.tla specifies both schedules generically over an arithmetic and DecodeRel.tla the arithmetic-independent relation C01Rel between input sign pattern, limit and result. TLC checks C01Rel on the "
+         "model's own results for both schedules with exact integer min-sum on five Tanner graphs x every LLR vector over a 4/5-value domain x limits 0..2/3. The real code is bound by trace validation: "
+         "every one of the 36 factory-built decoders is run on seeded matrices/LLR classes and TLC evaluates C01Rel on every recorded result (the relation needs no arithmetic model, so it applies to the float decoders too).",
+         "TLC + Json/IOUtils; hard_in computed by the harness as llr <= 0.0.",
+         "TLA+ model checking of the BP schedules + trace validation of recorded decode calls against C01Rel", "5 C01"),
+ "C10": ("BP.tla models the decoder OBJECT: which buffers persist across calls and what initialize() resets. TLC explores every history of 2 (3 thorough) calls over a call alphabet on five graphs and both "
+         "schedules and checks result = result of a fresh object; the as-found flooding model (output LLRs not reset) is a negative configuration. The real code is bound by trace validation of seeded "
+         "histories (5..20 calls) on one long-lived decoder per each of the 36 names: TLC requires every result to equal the recorded fresh-decoder result, equal arguments to give equal results across the history, and C01Rel.",
+         "TLC + Json/IOUtils; fresh reference built by the same factory name from a clone of the matrix.",
+         "TLA+ model checking of call histories on the decoder-object model + trace validation of recorded histories", "5 C10"),
  "C08": ("Alist.tla specifies the token-level format (writer, padded/unpadded, ValidAlist) and the line-oriented parser of from_alist as a state machine. TLC checks on every matrix up to 3x3 "
          "(3x4 thorough) and both paddings that the written text conforms, is valid and parses back, and on ~10^4 token soups that the parser machine never panics and accepts every valid text; the "
          "as-found parser without range check and the as-found padding underflow are negative configurations. The real writer/parser are bound by trace validation: tokenised real output judged by "
